@@ -240,6 +240,19 @@ def _c19_inverter(family, fw2, p745):
 
 
 def replay_opmode(family, fw2, p745, mode, power, soc, prior, check):
+    if check.startswith("C19_other_groups_switched_off_in_the_register_file"):
+        # native search over the decodable "on" bytes of groups 2..4
+        out = {}
+        for on in ((0xFF, 0xFE, 0xFD, 0xFC, 0xFB, 0xFA, 0xF9) if fw2 else (0xFF,)):
+            out = _replay_opmode(family, fw2, p745, mode, power, soc, prior, check, on)
+            if out.get("violates"):
+                out["groups_2_4_on_off_before"] = on
+                return out
+        return out
+    return _replay_opmode(family, fw2, p745, mode, power, soc, prior, check, 0xFF)
+
+
+def _replay_opmode(family, fw2, p745, mode, power, soc, prior, check, on):
     from goodwe.inverter import OperationMode
     inv = _c19_inverter(family, fw2, p745)
     regs = NativeRegs()
@@ -249,6 +262,17 @@ def replay_opmode(family, fw2, p745, mode, power, soc, prior, check):
         w = prior[2 * i] * 256 + prior[2 * i + 1]
         regs.mem[base + i] = w
         regs.aa[base + i] = w
+    # groups 2..4 enabled beforehand (on/off byte 0xFF; layout E3 of the harness), the rest of them zero
+    def onoff_reg(k):
+        if fw2:
+            return "mem", 47547 + 6 * (k - 1) + 2
+        if family == "ET":
+            return "mem", 47515 + 4 * (k - 1) + 3
+        return "aa", 0x701 + 4 * (k - 1) + 3
+    if check.startswith("C19_other_groups_switched_off_in_the_register_file"):
+        for k in (2, 3, 4):
+            sp, reg = onoff_reg(k)
+            getattr(regs, sp)[reg] = (on << 8) | (getattr(regs, sp).get(reg, 0) & 0xFF)
     attach_regs(inv, regs)
     m = OperationMode(mode)
     out = {"mode": m.name}
@@ -277,6 +301,10 @@ def replay_opmode(family, fw2, p745, mode, power, soc, prior, check):
         out["violates"] = eco.get_power() != (-power if m == OperationMode.ECO_CHARGE else power)
     elif check.startswith("C19_first_group_decodes_to_requested_soc"):
         out["violates"] = eco.soc != soc
+    elif check.startswith("C19_other_groups_switched_off_in_the_register_file"):
+        hb = {k: getattr(regs, onoff_reg(k)[0]).get(onoff_reg(k)[1], 0) >> 8 for k in (2, 3, 4)}
+        out["on_off_bytes_after"] = hb
+        out["violates"] = any((v >= 249) if fw2 else (v != 0) for v in hb.values())
     elif check.startswith("C19_other_groups"):
         vals = [asyncio.run(inv.read_setting(f"eco_mode_{k}_switch")) for k in (2, 3, 4)]
         out["switches"] = vals
@@ -313,6 +341,43 @@ def replay_c16(family, sid, check):
     import random
     rnd = random.Random(7)
     out = {"violates": False}
+    if check.startswith("C16_read_sensor_uses_the_definition"):
+        import itertools
+        from goodwe.modbus import ILLEGAL_DATA_ADDRESS
+        blocks = {"ET": ("_READ_BATTERY_INFO", "_READ_BATTERY2_INFO", "_READ_METER_DATA_EXTENDED2",
+                         "_READ_METER_DATA_EXTENDED", "_READ_MPPT_DATA"), "DT": ("_READ_METER_DATA",)}[family]
+        for before in (False, True):
+            for k in range(len(blocks) + 1):
+                for refused in itertools.combinations(blocks, k):
+                    inv = make_inverter(family, 0)
+                    regs = NativeRegs()
+                    for a in range(30000, 48000):
+                        regs.mem[a] = 1
+                    bad = {bytes(getattr(inv, b).request) for b in refused}
+
+                    async def stub(command, regs=regs, bad=bad):
+                        if bytes(command.request) in bad:
+                            raise RequestRejectedException(ILLEGAL_DATA_ADDRESS)
+                        return ProtocolResponse(frame_around(command, regs.answer(command)), command)
+                    inv._read_from_socket = stub
+                    if family == "ET":
+                        inv._has_battery = inv._has_mppt = before
+                        inv._has_meter_extended = inv._has_meter_extended2 = True
+                    else:
+                        inv._has_meter = before
+                    first = inv.sensors()[1].id_
+                    try:
+                        asyncio.run(inv.read_sensor(first))
+                        asyncio.run(inv.read_runtime_data())
+                    except BaseException as e:      # noqa
+                        out["note"] = repr(e)
+                        continue
+                    last = {s.id_: s for s in inv.sensors()}
+                    stale = [i for i, s in last.items() if inv._get_sensor(i) is not s]
+                    if stale:
+                        out.update(violates=True, stale=stale[:8], refused_blocks=list(refused), capabilities_before=before)
+                        return out
+        return out
     if check.startswith("C16_every_listed_id_is_known"):
         for before in (False, True):
             inv = make_inverter(family, 0)
@@ -405,7 +470,7 @@ def _apply_et_state(inv, st):
     inv._has_mppt, inv._has_battery2 = st["mppt"], st["b2"]
 
 
-def replay_runtime(family, state, script, check):
+def replay_runtime(family, state, script, check, fill=0, sensors_first=False):
     """two read_runtime_data() calls from an invariant state with the transport outcomes of the witness"""
     inv = make_inverter(family, 0)
     if family == "ET":
@@ -425,20 +490,41 @@ def replay_runtime(family, state, script, check):
     script = list(script)
     pos = [0]
     log = []
+    used = set()
+    keyed = bool(script) and all(s.get("request") for s in script)
+
+    def next_step(command):
+        """the scripted outcome of this request: matched by request bytes when the witness has them (the native run
+        may take other branches than the symbolic path where values are not tied to the payload, e.g. skip the
+        battery block), else by position"""
+        if keyed:
+            rq = bytes(command.request).hex()
+            for i, s in enumerate(script):
+                if i not in used and s["request"] == rq:
+                    used.add(i)
+                    return s
+            same = [s for s in script if s["request"] == rq]
+            return same[-1] if same else {"kind": "return", "payload": bytes([fill]) * 250}
+        step = script[pos[0]] if pos[0] < len(script) else {"kind": "return", "payload": bytes(250)}
+        pos[0] += 1
+        return step
 
     async def stub(command):
         log.append(request_kind(command))
-        step = script[pos[0]] if pos[0] < len(script) else {"kind": "return", "payload": bytes(250)}
-        pos[0] += 1
+        step = next_step(command)
         if step["kind"] == "raise":
             if step["cls"] == "RequestRejectedException":
                 raise RequestRejectedException(step.get("message", ""))
             raise RequestFailedException(step.get("message", ""), 1)
         payload = bytes(step["payload"])
+        if fill:
+            payload = bytes(b or fill for b in payload)
         need = 2 * command.value if hasattr(command, "value") and isinstance(command.value, int) else len(payload)
         payload = (payload + bytes(need))[:max(need, 0)] if need else payload
         return ProtocolResponse(frame_around(command, payload), command)
     inv._read_from_socket = stub
+    if sensors_first:
+        inv.sensors()
     calls = []
     for k in (1, 2):
         try:
@@ -460,4 +546,57 @@ def replay_runtime(family, state, script, check):
     else:
         out["violates"] = False
         out["note"] = "check not re-evaluated natively"
+    return out
+
+
+# ---- C20: shared state ---------------------------------------------------------------------------------------------------------
+def _shared_snapshot():
+    import goodwe
+    import importlib
+    import pkgutil
+    snap = {}
+    skip_cls = ("EcoModeV1", "EcoModeV2", "Schedule", "PeakShavingMode")
+
+    def rec(path, o, depth):
+        if depth > 3:
+            return
+        if isinstance(o, dict):
+            snap[path] = sorted((repr(k), type(v).__name__, id(v)) for k, v in o.items())
+            for k, v in o.items():
+                rec(f"{path}[{k!r}]", v, depth + 1)
+        elif isinstance(o, (list, set)):
+            snap[path] = sorted(repr(type(x).__name__) + str(id(x)) for x in o)
+        elif isinstance(o, tuple):
+            for i, x in enumerate(o):
+                rec(f"{path}[{i}]", x, depth + 1)
+        elif type(o).__module__.startswith("goodwe") and hasattr(o, "__dict__") and not isinstance(o, type):
+            if type(o).__name__ in skip_cls:
+                return
+            snap[path] = sorted((k, repr(v)[:60]) for k, v in vars(o).items() if not callable(v))
+    for m in pkgutil.iter_modules(goodwe.__path__):
+        mod = importlib.import_module("goodwe." + m.name)
+        for k, v in vars(mod).items():
+            if k == "_modbus_tcp_tx" or k.startswith("__"):
+                continue
+            if isinstance(v, type) and v.__module__.startswith("goodwe"):
+                for kk, vv in vars(v).items():
+                    if not callable(vv) and not kk.startswith("__"):
+                        rec(f"{mod.__name__}.{k}.{kk}", vv, 0)
+            elif not isinstance(v, type) and not callable(v) and not hasattr(v, "__path__") and type(v).__name__ != "module":
+                if isinstance(v, (int, str, float, bytes, type(None))):
+                    snap[f"{mod.__name__}.{k}"] = repr(v)
+                else:
+                    rec(f"{mod.__name__}.{k}", v, 0)
+    return snap
+
+
+def replay_shared(family, method, args, script, variant):
+    """run the call on one object and compare everything reachable from classes / modules before and after"""
+    before = _shared_snapshot()
+    inv = make_inverter(family, variant)
+    out = run_scripted(inv, method, list(args), list(script))
+    after = _shared_snapshot()
+    changed = [k for k in set(before) | set(after) if before.get(k) != after.get(k)]
+    out["changed_shared_state"] = sorted(changed)[:10]
+    out["violates"] = bool(changed)
     return out
